@@ -148,6 +148,11 @@ func (a *Allocation) ListPermissions() []*Permission {
 // AddChannelBind adds a new ChannelBind to the allocation, it also updates the
 // permissions needed for this ChannelBind.
 func (a *Allocation) AddChannelBind(chanBind *ChannelBind, channelLifetime, permissionLifetime time.Duration) error {
+	// Only numbers in 0x4000-0x7FFF can be bound (RFC 5766 Section 11).
+	if !chanBind.Number.Valid() {
+		return proto.ErrInvalidChannelNumber
+	}
+
 	// Check that this channel id isn't bound to another transport address, and
 	// that this transport address isn't bound to another channel number.
 	channelByNumber := a.GetChannelByNumber(chanBind.Number)
